@@ -648,6 +648,15 @@ class World:
                 sh[ax] = sh[ax] + rng.choice([1, 2]) if rng.random() < 0.6 or sh[ax] < 2 else sh[ax] - 1
                 if any(d >= 0 and d != n for d, n in zip(etx["sh"], sh)) and rng.random() < 0.5:
                     pass        # also static dimensions may be violated
+                if etx["it"]["k"] == "sc" and rng.random() < 0.35:
+                    # an ndarray of HIGHER rank whose leading dimensions equal the stored shape
+                    extra_dim = rng.choice([2, 3])
+                    py = np.arange(int(np.prod(cur["sh"])) * extra_dim).reshape(list(cur["sh"]) + [extra_dim]).astype(etx["it"]["np"].lower())
+                    detail = f"{key} {acc}{last} ndarray of shape {list(py.shape)} for stored shape {cur['sh']}"
+                    tag = f"{len(cur['sh'])}d-staticitem-higher-rank-ndarray"
+                    attempt(lambda: assign(key, acc, last, py))
+                    found = True
+                    break
                 n = int(np.prod(sh))
                 like0 = cur["it"][0]
                 vs = [self.gen(("null",), np_forms=False).value(etx["it"], key[0], like=like0)[1] for _ in range(n)]
@@ -736,11 +745,25 @@ class World:
         self.record("err", kind=kind, exc=exc, detail=detail, tag=tag)
         return True
 
-    def copy(self, key, db):
+    def copy(self, key, db, whole=False):
         rng = self.rng
         tx = self.handles[key]["tx"]
         cls = self.ns.cls(tx)
         src = self.fetch(key, rng.choice([r for r in self.routes(key) if r not in ("nplike", "hybrid")]))
+        spath, sval = [], self.shadow[key]
+        parts = [(acc + [last], etx, cur) for acc, last, etx, cur in self.all_elems(key)
+                 if etx["k"] in ("struct", "arr") and not _unknown_cap(etx, cur) and (etx["k"] != "struct" or etx["f"])]
+        if parts and not whole and rng.random() < 0.4:
+            # copy-construct from a nested compound part: the source handle is a view handed out by the library
+            dyn = [p_ for p_ in parts if p_[1]["k"] == "arr" and not X.is_static(p_[1]["it"])]       # parts with an item-offset table of their own
+            accp, tx, sval = rng.choice(dyn if dyn and rng.random() < 0.6 else parts)
+            cls = self.ns.cls(tx)
+            try:
+                src = self.walk(src, accp)
+            except Exception:           # noqa
+                return None
+            spath = [{"f": s_[1] + 1} if s_[0] == "f" else {"i": list(s_[1])} for s_ in accp]
+            self.last_copied_part = (key, accp)
         exc, h = "", None
         try:
             if self.bufs[db].context is not self.bufs[key[0]].context and rng.random() < 0.0:
@@ -749,17 +772,17 @@ class World:
                 h = cls(src, _buffer=self.bufs[db])
         except Exception as ex:          # noqa
             exc = type(ex).__name__ + ":" + str(ex)[-160:]
-        self.prog.append(f"copy {key} -> b={db} {None if h is None else h._offset} {exc}")
+        self.prog.append(f"copy {key}{spath if spath else ''} -> b={db} {None if h is None else h._offset} {exc}")
         if h is None:
-            self.record("copy", src=[key[0] + 1, key[1]], b=db + 1, a=-1, size=-1, exc=exc)
+            self.record("copy", src=[key[0] + 1, key[1]], spath=spath, b=db + 1, a=-1, size=-1, exc=exc)
             return None
         a = int(h._offset)
         nk = (db, a)
-        inp = self.copy_input(tx, self.shadow[key], key[0], key[0] == db)
+        inp = self.copy_input(tx, sval, key[0], key[0] == db)
         self.handles[nk] = dict(tx=tx, ctor=h, parent=None)
         ok = self.safe_register(lambda: self.shadow.__setitem__(nk, self.to_shadow(tx, inp, h, db, nk, [])))
         size = getattr(h, "_size", None)
-        self.record("copy", src=[key[0] + 1, key[1]], b=db + 1, a=a, size=int(size) if size is not None else -1)
+        self.record("copy", src=[key[0] + 1, key[1]], spath=spath, b=db + 1, a=a, size=int(size) if size is not None else -1)
         return nk if ok else None
 
     def history(self):
